@@ -4,21 +4,26 @@ import XpmVerif.Model.Ident
     `acc` is the list of task nodes already added (`taskids`), initialised with the submitted task itself. -/
 namespace XpmVerif.Ident
 
+/-- the producing task as dependency collection sees it: `self.task and not self.loaded` — a configuration obtained by
+    deserialisation (`loaded = True`: `load`, `from_task_dir`, the job itself at run time) keeps its `task` field, but its
+    *arguments* are walked instead of depending on the task that once produced it. `ld n` = node `n` is loaded. -/
+def effTask (g : Graph) (ld : Nat → Bool) (n : Nat) : Option Nat := if ld n then none else (g.node n).task
+
 /-- `ConfigInformation.updatedependencies` of node `n`. -/
-def depsNode (g : Graph) : Nat → Nat → List Nat → List Nat
+def depsNode (g : Graph) (ld : Nat → Bool) : Nat → Nat → List Nat → List Nat
   | 0, _, acc => acc
   | fuel + 1, n, acc =>
     let nd := g.node n
-    let rec_ := depsNode g fuel
+    let rec_ := depsNode g ld fuel
     let acc := walkNodes rec_ nd.preTasks acc
     let acc := walkNodes rec_ nd.initTasks acc
-    match nd.task with
+    match effTask g ld n with
     | some t => if acc.contains t then acc else acc ++ [t]
     | none => walkVals rec_ (nd.args.map (·.value)) acc
 
 /-- the job dependencies of the task `root` being submitted (its own `task` field is still unset),
     without `root` itself. -/
-def collectDeps (g : Graph) (root : Nat) : List Nat :=
-  (depsNode g (g.size + 1) root [root]).filter (· ≠ root)
+def collectDeps (g : Graph) (ld : Nat → Bool) (root : Nat) : List Nat :=
+  (depsNode g ld (g.size + 1) root [root]).filter (· ≠ root)
 
 end XpmVerif.Ident
